@@ -1,13 +1,14 @@
 import Falcon.Model.KeyCodec
+import Falcon.Lemmas.KeyCodecSk
 
 /-!
 # C06 — decoding is strict
 
 Theorems on the model `Falcon.KeyCodec` of the `from_bytes` / `to_bytes` pairs in falcon.rs.
 Proved here for all byte strings: signature decoding is strict (accepted ⇒ re-encodes identically) and the
-rejection rules for lengths, headers, variants and out-of-range fields of all three types.  The strictness
-of the two key decoders (bit-chunk reassembly) is validated by execution on every run (model = code on every
-generated string, and accepted ⇒ re-encodes identically), not yet proved for all strings.
+rejection rules for lengths, headers, variants and out-of-range fields of all three types; the two key decoders
+are strict as well (`public_key_strict`, `secret_key_strict`: bit-chunk reassembly, unsigned 14-bit and
+two's-complement 5/6/8-bit fields, for every byte string).
 -/
 namespace Falcon.Props.C06
 open Falcon Falcon.KeyCodec
@@ -184,6 +185,37 @@ theorem sk_bad_header (N : Nat) (hd b1 : Nat) (tl : List Nat) (h : hd / 16 ≠ 5
 theorem sk_too_short (N : Nat) (b : List Nat) (h : b.length < 2) :
     skFromBytes N b = .ok (.error .BadEncodingLength) := by
   simp [skFromBytes, h]
+
+/-! ### strictness of the two key decoders, for every byte string -/
+
+/-- **public keys**: an accepted string re-encodes to itself; the decoded vector has N canonical coefficients -/
+theorem public_key_strict (N : Nat) (b : List Nat) (hb : ∀ x ∈ b, x < 256) (h : List Nat)
+    (hacc : pkFromBytes N b = .ok (.ok h)) :
+    pkToBytes h = b ∧ h.length = N ∧ ∀ x ∈ h, x < 12289 :=
+  pk_strict N b hb h hacc
+
+/-- **secret keys** (the stored polynomials): an accepted string re-encodes to itself — serialising the decoded
+    residues (centred, two's complement, widths 6/6/8 or 5/5/8) gives back every bit, without overflow in either
+    build mode -/
+theorem secret_key_strict (chk : Bool) (N : Nat) (b : List Nat) (hb : ∀ x ∈ b, x < 256) (f g cF : List Nat)
+    (hacc : skFromBytes N b = .ok (.ok (f, g, cF))) :
+    skToBytes chk (f.map fun (r : Nat) => (r : Int)) (g.map fun (r : Nat) => (r : Int))
+        (cF.map fun (r : Nat) => (r : Int)) = .ok b ∧ f.length = N ∧ g.length = N ∧ cF.length = N :=
+  sk_strict chk N b hb f g cF hacc
+
+/-- hence no two distinct strings decode to the same public key -/
+theorem public_key_decode_injective (N : Nat) (b b' : List Nat) (hb : ∀ x ∈ b, x < 256) (hb' : ∀ x ∈ b', x < 256)
+    (h : List Nat) (h1 : pkFromBytes N b = .ok (.ok h)) (h2 : pkFromBytes N b' = .ok (.ok h)) : b = b' := by
+  rw [← (pk_strict N b hb h h1).1, ← (pk_strict N b' hb' h h2).1]
+
+/-- … nor to the same secret key -/
+theorem secret_key_decode_injective (N : Nat) (b b' : List Nat) (hb : ∀ x ∈ b, x < 256) (hb' : ∀ x ∈ b', x < 256)
+    (f g cF : List Nat) (h1 : skFromBytes N b = .ok (.ok (f, g, cF))) (h2 : skFromBytes N b' = .ok (.ok (f, g, cF))) :
+    b = b' := by
+  have e1 := (sk_strict true N b hb f g cF h1).1
+  have e2 := (sk_strict true N b' hb' f g cF h2).1
+  rw [e1] at e2
+  injection e2
 
 /-! ### non-vacuity: concrete strings on both sides of the rules -/
 example : (match sigFromBytes 512 (0x59 :: List.replicate 665 7) with
